@@ -282,7 +282,9 @@ func (s scenario) run(root string, id int) []any {
 		firstOverride, resumeOverride = join(base, firstOverride), join(base, resumeOverride)
 	}
 	ref := referenceDigest(root, s.cfg, base)
-	same := func(p DirProj, changed string) bool { return !p.HasManifest || changed != "none" || ref == "" || p.ManifestDigest == ref }
+	same := func(p DirProj, changed string) bool {
+		return !p.HasManifest || changed != "none" || ref == "" || p.ManifestDigest == ref
+	}
 	r := runChild(s.cfg, dir, false, s.K1, s.F1, 0, false, firstOverride)
 	ev := runEv{E: "run", Hid: id, Kind: "dump", Changed: "none", CrashAt: s.K1, Point: r.Point, OK: r.OK, Err: r.Err, Dir: Project(dir), Src: src.Graphs}
 	ev.ManifestSame = same(ev.Dir, "none")
